@@ -261,12 +261,68 @@ def c11_illegal(col, rng):
             col.counters["c11_illegal_build_rejected"] += 1
 
 
+def c11_nested_setup(col, rng, k, jobref=None):
+    """A DAG with a setup node called inside another DAG: what was already set up on the inner DAG is not set up again."""
+    from tawazi import dag, xn
+
+    pid = (jobref or {}).get("pid", "C11")
+    col = _Filtered(col, (jobref or {}).get("only"))
+    s_ = xn(setup=True)(probes.mkprobe("ns_setup%d" % k, setup=True))
+    f_ = xn(probes.mkprobe("ns_f%d" % k))
+    g_ = xn(probes.mkprobe("ns_g%d" % k))
+    is_async = rng.random() < 0.3
+
+    def inner_fn(x):
+        m = s_("model")
+        return f_(m, x)
+
+    inner_fn.__name__ = inner_fn.__qualname__ = "ns_inner%d" % k
+    inner = dag(inner_fn)
+    pre = rng.choice(["none", "setup", "call"])
+    rp = {"kind": "rerun_job", "job": dict(jobref or {}), "scenario": "nested_setup", "inner_history": pre}
+    counts = {"setup": 0}
+    B.reset_log()
+    if pre == "setup":
+        probes.run_op("inner.setup", lambda: inner.setup())
+    elif pre == "call":
+        probes.run_op("inner.call", lambda: inner(Sym("arg", k, "i")))
+    counts["setup"] += sum(1 for e in B.snapshot() if e["kind"] == "FENTER" and e["fn"] == "ns_setup%d" % k)
+
+    def outer_fn(x):
+        r = inner(x)
+        return g_(r)
+
+    outer_fn.__name__ = outer_fn.__qualname__ = "ns_outer%d" % k
+    outer = dag(is_async=is_async)(outer_fn)
+    steps = rng.sample(["setup", "call", "call", "exec"], rng.randint(2, 4))
+    for st in steps:
+        B.reset_log()
+        if st == "setup":
+            r = probes.run_op("outer.setup", lambda: op_setup(outer, {}))
+        elif st == "call":
+            r = probes.run_op("outer.call", lambda: op_call(outer, [Sym("arg", k, "o")]))
+        else:
+            r = probes.run_op("outer.executor", lambda: op_exec(outer, {}, [Sym("arg", k, "e")]))
+        counts["setup"] += sum(1 for e in B.snapshot() if e["kind"] == "FENTER" and e["fn"] == "ns_setup%d" % k)
+        col.evaluations += 1
+        if r[0] != "ok":
+            col.violation(pid, "operation_raised", dict(op=st, exc=repr(r[1])[:300], scenario="nested_setup", inner_history=pre, steps=steps), rp)
+            return
+    col.counters["c11_nested_setup_scenarios"] += 1
+    if counts["setup"] != 1:
+        col.violation(pid, "setup_node_ran_more_than_once_on_one_instance", dict(
+            scenario="setup node of a DAG nested in another DAG", times=counts["setup"], inner_history=pre, outer_steps=steps, is_async=is_async), rp)
+    col.hashes.add(S.spec_hash({"nested_setup": pre, "steps": steps, "a": is_async}))
+
+
 @job("hist11")
 def job_hist11(j):
     rng = random.Random(j["seed"])
     col = Collector()
     for h in range(j["n_histories"]):
         c11_history(col, rng, h, jobref=j)
+        if h % 10 == 4:
+            c11_nested_setup(col, rng, h, jobref=j)
     c11_illegal(col, rng)
     return col.result()
 
@@ -289,8 +345,13 @@ def gen_leak_spec(rng):
 
     sp = gen_shape(rng, nmin=3, nmax=7, flags=True, reuse=True, mc_max=3)
     sp["params"] = ["x", "y"]
-    sp["defaults"] = {"y": ("D", 1)}
-    for nd in sp["nodes"]:
+    sp["defaults"] = {"y": rng.choice([("D", 1), ("D", 1), 0, None, ""])}
+    indexed = {a[1] for m in sp["nodes"] for a in list(m["args"]) + list(m["kwargs"].values()) if a[0] == "n" and a[2]}
+    for i_, nd in enumerate(sp["nodes"]):
+        if nd["active"] is None and i_ not in indexed and rng.random() < 0.15:
+            # the activation flag is a defaulted DAG argument (truthy in some calls, falsy in others); never on a call whose
+            # result is indexed by a consumer (indexing the None of a deactivated call is outside the fragment, DESIGN 6.9)
+            nd["active"] = ["p", "y"]
         r = rng.random()
         if r < 0.2:
             nd["args"].append(["p", "y"])
@@ -373,12 +434,15 @@ def c15_history(col, rng, hidx, jobref=None):
                 return
             fault = rng.choice(cands)
             probes.State.faults = {fault}
+            probes.State.fault_base = rng.random() < 0.4  # a failure tawazi does not wrap (BaseException subclass)
         B.reset_log()
         try:
             r1 = probes.run_op("executor_run_1", lambda: do(d, lambda: ex(*args1), a1))
         finally:
             probes.State.faults = set()
-        hist.append(("executor_first_run", S.jsonable(kw), "fails at %s" % fault if fault else "ok"))
+            fb = probes.State.fault_base
+            probes.State.fault_base = False
+        hist.append(("executor_first_run", S.jsonable(kw), ("fails at %s%s" % (fault, " with a BaseException" if fb else "")) if fault else "ok"))
         if fail_first and r1[0] == "ok":
             return
         if not fail_first and r1[0] != "ok":
